@@ -382,7 +382,7 @@ def _generalised_insertions(F, rep, setname):
                     if "name_resolution::Expression" not in (src.get("scrut_ty") or ""):
                         continue
                     vs = {last(pat_variant(alt) or "_") for a in src["arms"] for alt in pat_alternatives(a["pat"])
-                          if peel(a["body"]).get("v") is True or peel(a["body"]).get("k") == "MethodCall"}
+                          if not (peel(a["body"]).get("k") == "Lit" and peel(a["body"]).get("v") is False)}
                     shape = shape or (vs <= {"Function", "Read"} and "Function" in vs)
             good = after and immut and shape
             notes.append("definition(): after the value is checked=%s, immutable only=%s, function literal / generalised name only=%s" % (after, immut, shape))
